@@ -100,20 +100,6 @@ theorem direct_solves_eq12 (ph : Phys) (h : ph.Valid) (Tn : ℝ) (hT : Tn < ph.T
   have := sigmaDirect_spec ph h Tn hT
   exact ⟨this.1, fun x h0 h1 h2 => this.2 x ⟨h0, h1, h2⟩⟩
 
-/-- the primary constants of a configuration as physical parameters -/
-def physOf (y : Primary ℝ) : Phys where
-  w_s := y.solid_fraction
-  cp_s := y.cp_s
-  cp_w := y.cp_w
-  cp_i := y.cp_i
-  lam := y.Dh
-  T_m := y.T_eq
-  k_f := y.k_f
-  M_s := y.M_s
-  rho := y.rho_l
-  V := y.length * y.width * y.height
-  b := y.b
-
 /-- **derived constants**: what `calculateDerived` hands to `run()` are the documented
 combinations `m = ρV`, `hl = m c_p`, `D = k_f/M_s·w_s/(1−w_s)`, `alpha = −m λ (1−w_s)`,
 `beta_solution = D m c_p`, `T_eq_l = T_m − D`, and these are what the step formulas use. -/
@@ -282,22 +268,6 @@ theorem initIce_case_insensitive (s t : String) (h : s.toLower = t.toLower) :
 
 /-! ### non-vacuity: the default configuration (5 wt.% sucrose, 1 cm³ cubic vials) -/
 
-/-- primary constants of `snowConfig_default.yaml` -/
-noncomputable def defaultPrimary : Primary ℝ where
-  T_eq := 0
-  b := 29.3
-  rho_l := 1000
-  height := 0.01
-  length := 0.01
-  width := 0.01
-  cp_s := 1240
-  solid_fraction := 0.05
-  cp_w := 4187
-  cp_i := 2108
-  k_f := 1.853
-  M_s := 0.3423
-  Dh := 333550
-
 theorem nonvacuous :
     (physOf defaultPrimary).Valid ∧
     -- a supercooled vial at −10 °C satisfies the hypothesis of `direct_solves_eq12`
@@ -306,8 +276,7 @@ theorem nonvacuous :
     SymNbrs [[1], [0]] 2 ∧
     -- an admissible ice fraction satisfies the side condition of `vial_trichotomy`
     ((1 / 2 : ℝ) ≠ 1 ∧ (physOf defaultPrimary).bracket (1 / 2) ≠ 0) := by
-  have hV : (physOf defaultPrimary).Valid := by
-    constructor <;> simp only [physOf, defaultPrimary] <;> norm_num
+  have hV : (physOf defaultPrimary).Valid := defaultPrimary_valid
   refine ⟨hV, ?_, ?_, ?_⟩
   · simp only [Phys.TeqL, Phys.D, physOf, defaultPrimary]; norm_num
   · constructor
